@@ -58,9 +58,3 @@ Example C16_domain_nonempty :
           [("expm1", "duckdb", 0%nat); ("isnull", "postgres", 0%nat); ("date_add", "snowflake", 1%nat);
            ("coalesce", "standalone", 1%nat)] = true.
 Proof. vm_compute. reflexivity. Qed.
-
-(** size of the decided domain, for the evidence *)
-Eval vm_compute in
-  (length gen_entries,
-   length (filter (fun e => decided gen_prims gen_table "c" e) gen_entries),
-   length (filter (fun e => listed C16_known e) gen_entries)).
